@@ -791,6 +791,7 @@ def whole_busy_set(ctx, rid, what=""):
     from ..util import REPEX
     cls = ctx.tree.cls(REPEX, "REPEX_state")
     n = 0
+    covered = set()
     for f in [s_ for s_ in cls.body if isinstance(s_, FUNC)]:
         fl = None
         for c in [x for x in walk_local(f) if isinstance(x, ast.Compare) and len(x.ops) == 1 and isinstance(x.ops[0], (ast.In, ast.NotIn))]:
@@ -802,13 +803,24 @@ def whole_busy_set(ctx, rid, what=""):
                 continue
             cands = [coll] if not isinstance(coll, ast.Name) else []
             if isinstance(coll, ast.Name):
-                for d, _ in fl.rd(coll.id, at):
-                    if isinstance(getattr(d, "value", None), ast.AST):
-                        cands.append(d.value)
+                seen_names = set()
+                todo = [(coll.id, at)]
+                while todo:
+                    nm, where = todo.pop()
+                    if (nm, where.id) in seen_names:
+                        continue
+                    seen_names.add((nm, where.id))
+                    for d, _ in fl.rd(nm, where):
+                        v = getattr(d, "value", None)
+                        if isinstance(v, ast.Name):
+                            todo.append((v.id, d.at))
+                        elif isinstance(v, ast.AST):
+                            cands.append(v)
             rel = [v for v in cands if any(isinstance(x, ast.Call) and last_name(x) == "locked_paths" for x in ast.walk(v))]
             if not rel:
                 continue
             n += 1
+            covered.add(f.name)
             q = getattr(f, "_fq", f.name)
             for v in rel:
                 if isinstance(v, ast.Call) and last_name(v) == "locked_paths" and not v.args:
@@ -818,3 +830,4 @@ def whole_busy_set(ctx, rid, what=""):
                             construct=f"{q}: busy set reduced to {short(v, 40)}")
     if n < 2:
         raise AnalysisError(f"{rid}: only {n} membership tests against locked_paths() found (expected >= 2: sort_trajstate, treat_output)")
+    return covered
